@@ -798,9 +798,14 @@ func runCheck(eng *Eng, id, tier string, replay, keep bool, only string) int {
 			"integers":                 "mathematical Int with a no-overflow obligation at every arithmetic site (64-bit vectors where a contract says 'mode bv64')",
 			"contract_files":           relFiles(eng.con.Files),
 		}}
-	os.MkdirAll(filepath.Join(verifDir, "evidence"), 0o755)
 	data, _ := json.MarshalIndent(ev, "", " ")
-	os.WriteFile(filepath.Join(verifDir, "evidence", id+".json"), data, 0o644)
+	if r := os.Getenv("VERIF_REPO"); r != "" && filepath.Clean(r) != "/repo" && os.Getenv("VERIF_DIR") == "" {
+		// a run against a scratch copy of the repository (a seeded change) must not overwrite the evidence of /repo
+		fmt.Fprintln(os.Stderr, "fsv: VERIF_REPO points at a scratch copy and VERIF_DIR is not set: evidence file not written")
+	} else {
+		os.MkdirAll(filepath.Join(verifDir, "evidence"), 0o755)
+		os.WriteFile(filepath.Join(verifDir, "evidence", id+".json"), data, 0o644)
+	}
 	fmt.Printf("%s: %d obligations, %d discharged, %d failed, %d known findings, %d functions, %d lemmas, %.1fs\n", id, len(allObls)-len(knownObls), discharged, len(failed)-len(knownObls), len(knownObls), len(tasks), len(lemmas), time.Since(t0).Seconds())
 	return exit
 }
